@@ -203,10 +203,8 @@ theorem outerMap_spec (s : SymScope) (stack : Stack) (sup : Supply) (n : Nsp) (c
 
 theorem mem_candidates (s : SymScope) (x : String) (hx : x ∈ s.frees ++ s.nonlocals) (hc : x ≠ "__class__") (m : Bool) :
     x ∈ (nonlocalCandidates .function s m).1 := by
-  simp only [nonlocalCandidates]
-  split
-  · simp only [List.mem_filter]; exact ⟨hx, by simpa using hc⟩
-  · exact hx
+  simp only [nonlocalCandidates, List.mem_filter]
+  exact ⟨hx, by simpa using hc⟩
 
 /-- completeness: every free / nonlocal name of a function scope (other than a method's implicit
     `__class__`) has an entry - no free name is left to Python's own resolution of the generated lambdas -/
